@@ -90,6 +90,32 @@ pub fn sweeps(ctx: &Ctx) -> Vec<Sweep> {
         }
     }));
 
+    // (a2) digests of another length than the computed one
+    {
+        let rad2 = [4u64, 8, 8, 8, 8];
+        let n2 = product(&rad2);
+        let b3 = bases.clone();
+        v.push(Sweep::new("matrix-lengths", "four bases × each digest ∈ {absent, correct, wrong ×3, truncated to half, empty, extended by two characters} (combinations with at least one digest of another length): a recorded digest of a different length never matches".into(), n2, move |i, acc| {
+            let d = decode(i, &rad2);
+            if d[1..5].iter().all(|x| *x < 5) {
+                return;
+            }
+            acc.evals += 1;
+            let plan = DigestPlan { md5: D::from_digit(d[1]), sha1: D::from_digit(d[2]), sha256: D::from_digit(d[3]), payload: D::from_digit(d[4]), algo: 8 };
+            let (name, parts) = &b3[d[0] as usize];
+            let (x, _) = with_digests(parts, &plan);
+            let case = || json!({"base": name, "plan": format!("{:?}", plan), "bytes_hex": if x.len() < 4096 { vlib::hex(&x) } else { String::new() }});
+            if let Some(v) = judge("matrix-lengths", &x, i, &case, acc) {
+                if v != DigestVerdict::Ok {
+                    acc.nontrivial += 1;
+                }
+                if i % 211 == 0 {
+                    acc.sample(i, || json!({"base": name, "plan": format!("{:?}", plan), "reference": format!("{:?}", v)}));
+                }
+            }
+        }));
+    }
+
     // (b) every single-bit flip of two packages carrying digests (all regions)
     let all4 = with_digests(&bases[0].1, &DigestPlan { md5: D::Correct, sha1: D::Correct, sha256: D::Correct, payload: D::Correct, algo: 8 }).0;
     let built = { crate::corpus::one_file().build_bytes(&env).unwrap().1 };
@@ -123,6 +149,7 @@ pub fn run(ctx: &Ctx) -> i32 {
         let (sub, _events) = run_sweep(ctx, &s); // parser crashes on mutated bytes are C04's business (counted in the histogram)
         subs.push(sub);
     }
+    subs.push(crate::aging::run(ctx, "object-histories", &["digests"]));
     // (c) corpus and assets verify
     let c = crate::corpus::run_corpus(ctx, "corpus", "oracle: reference digest verdict (must be Ok and agree with verify_digests)", &|sub, it, rank, acc| {
         let case = || it.desc.clone();
